@@ -3,7 +3,7 @@
    The model (Model/Tlv.v) is tied to aiohomekit/protocol/tlv.py by the
    correspondence check harness/c15.py. *)
 From Coq Require Import List NArith Arith Bool Lia.
-From AHK Require Import Lib.Res Lib.ByteStr Model.Tlv Proofs.Tlv.
+From AHK Require Import Lib.Res Lib.ByteStr Model.Tlv Proofs.Tlv Model.TlvObj Proofs.TlvObj.
 Import ListNotations.
 
 Lemma F255 : 0 < 255. Proof. lia. Qed.
@@ -82,6 +82,63 @@ Example c15_nonvacuous :
   wf d = true /\ (exists t, tlv_encode d = Ok t /\ length t = 613 /\ tlv_decode t = Ok d).
 Proof. cbv zeta. split; [vm_compute; reflexivity|]. eexists. split; [vm_compute; reflexivity|]. split; vm_compute; reflexivity. Qed.
 
+
+(* ---- object level (Model/TlvObj.v): the codec called on caller-owned bytes/bytearray objects, any number
+   of times in one process.  [deref s a] reads the item list out of the caller's objects. ---- *)
+
+(* the fragmentation loop, written with the object primitives the code uses on its local alias of the
+   caller's value, computes exactly the value-level encoder AND returns the store it was given *)
+Theorem tlv_obj_encode_refines : forall s a d,
+    deref s a = Some d ->
+    tlv_enc_obj s a = match tlv_encode d with
+                      | Ok t => Ok (s, t) | Err e => Err e | Crash => Crash | OutOfFuel => OutOfFuel end.
+Proof. exact (enc_obj_refines 255 F255). Qed.
+
+(* every call of every history returns what the value-level model says about the values the objects hold
+   at that moment: no call depends on an earlier one except through the objects the caller itself changed *)
+Theorem tlv_obj_step_spec : forall s o w, spec_out 255 s o = Some w -> snd (tlv_obj_step s o) = w.
+Proof. exact (step_spec 255 F255). Qed.
+
+(* encode and decode leave every existing object as it was; an append changes only the object it names *)
+Theorem tlv_obj_step_preserves : forall s o r0,
+    r0 < length s -> (forall bs, o <> OAppend r0 bs) ->
+    (forall a, o = OEnc a -> exists d, deref s a = Some d) ->
+    nth_error (fst (tlv_obj_step s o)) r0 = nth_error s r0.
+Proof. exact (step_preserves 255 F255). Qed.
+
+(* retry / re-send: the same argument object encoded twice gives the same bytes twice and still reads d *)
+Theorem tlv_obj_encode_twice : forall s a d t,
+    deref s a = Some d -> tlv_encode d = Ok t ->
+    exists s2, tlv_obj_run s [OEnc a; OEnc a] = (s2, [REnc (Ok t); REnc (Ok t)]) /\ deref s2 a = Some d.
+Proof. exact (enc_twice 255 F255). Qed.
+
+(* the round trip as the caller observes it AFTER the calls: the decode result reads d, is made of objects
+   that did not exist before, and the argument still reads d *)
+Theorem tlv_obj_roundtrip : forall s a d,
+    deref s a = Some d -> wf d = true ->
+    exists t s2 a2,
+      tlv_obj_run s [OEnc a; ODec [] (length s)] = (s2, [REnc (Ok t); RDec (Ok a2)]) /\
+      deref s2 a2 = Some d /\ deref s2 a = Some d /\
+      Forall (fun kr : N * ref => length s < snd kr) a2.
+Proof. exact (roundtrip_objects 255 F255). Qed.
+
+(* non-vacuity, and the store component is not decoration: on a caller-owned bytearray of 300 bytes the
+   in-place variant (del value[:255] through the alias, round-8 seed O) produces the same bytes but leaves
+   the caller's object empty, while the modelled loop leaves it alone *)
+Example c15_inplace_variant_differs :
+  let s := [(KByteArray, repeat 7%N 300)] in
+  (exists t, enc_item_inplace 255 s 9%N 0 = Ok ([(KByteArray, [])], t) /\ tlv_enc_obj s [(9%N, 0)] = Ok (s, t)).
+Proof. cbv zeta. eexists. split; vm_compute; reflexivity. Qed.
+
+Example c15_obj_nonvacuous :
+  let s := [(KByteArray, repeat 7%N 300); (KBytes, [1%N])] in
+  let a := [(6%N, 1); (3%N, 0)] in
+  exists t s2, tlv_obj_run s [OEnc a; OEnc a; ODec [] 2; OAppend 5 [9%N]; ODec [] 2; OEnc a]
+               = (s2, [REnc (Ok t); REnc (Ok t); RDec (Ok [(6%N, 4); (3%N, 5)]); RApp true;
+                       RDec (Ok [(6%N, 6); (3%N, 7)]); REnc (Ok t)])
+             /\ length t = 307 /\ deref s2 [(3%N, 7)] = Some [(3%N, repeat 7%N 300)].
+Proof. cbv zeta. eexists. eexists. split; [vm_compute; reflexivity|]. split; vm_compute; reflexivity. Qed.
+
 Print Assumptions tlv_roundtrip.
 Print Assumptions tlv_encode_rejects.
 Print Assumptions tlv_canonical.
@@ -92,3 +149,8 @@ Print Assumptions tlv_frags_exact.
 Print Assumptions tlv_expected_prefix.
 Print Assumptions ble_reassembly.
 Print Assumptions ble_reassembly_keeps_siblings.
+Print Assumptions tlv_obj_encode_refines.
+Print Assumptions tlv_obj_step_spec.
+Print Assumptions tlv_obj_step_preserves.
+Print Assumptions tlv_obj_encode_twice.
+Print Assumptions tlv_obj_roundtrip.
